@@ -74,6 +74,26 @@ def _specs(k, prefix):
 	return _cache[key]
 
 
+def spec_variants(k, prefix):
+	"""The same parameters spelled the other ways a KmerSpec accepts: prefix as text, in lower / mixed case, k as a NumPy integer, through
+	JSON, through pickle (what a process pool does).  All must behave as the plain one."""
+	key = ('variants', k, prefix)
+	if key not in _cache:
+		import pickle
+		import numpy as np
+		from gambit.kmers import KmerSpec
+		from gambit.util import json as gjson
+		mixed = bytes(b + 32 if i % 2 == 0 else b for i, b in enumerate(prefix))
+		out = [('str', KmerSpec(k, prefix.decode())), ('lower-bytes', KmerSpec(k, prefix.lower())), ('lower-str', KmerSpec(k, prefix.decode().lower())),
+		       ('mixed-case', KmerSpec(k, mixed)), ('numpy-k', KmerSpec(np.int64(k), prefix)), ('pickled', pickle.loads(pickle.dumps(KmerSpec(k, prefix.lower()))))]
+		try:
+			out.append(('json', gjson.from_json(gjson.to_json(KmerSpec(k, prefix.decode().lower())), KmerSpec)))
+		except Exception:
+			pass
+		_cache[key] = out
+	return _cache[key]
+
+
 def occ_stats(k, prefix, seqs):
 	"""Counts used for non-vacuity only (model side): forward / reverse occurrences, dropped ones, overlaps."""
 	fwd = rev = dropped = overlap = 0
@@ -123,6 +143,15 @@ def check_case(sh, k, prefix, seqs, variants='all', stats=True):
 				sh.violation('signature', dict(k=k, prefix=prefix, seqs=list(seqs), type=tname, acc=aname),
 				             dict(sig=exp, dtype=dt), dict(sig=getattr(got, 'tolist', lambda: repr(got))(), dtype=str(getattr(got, 'dtype', None))))
 				return
+	if variants == 'all' and exp:
+		for vname, vks in spec_variants(k, prefix):
+			got = calc_signature(vks, [bytes(s) for s in seqs])
+			sh.evals += 1
+			if vks != ks or not isinstance(got, np.ndarray) or str(got.dtype) != dt or got.tolist() != exp:
+				sh.violation('signature', dict(k=k, prefix=prefix, seqs=list(seqs), type='bytes', acc='default', kmerspec_built_as=vname), dict(sig=exp, dtype=dt),
+				             dict(sig=getattr(got, 'tolist', lambda: repr(got))(), dtype=str(getattr(got, 'dtype', None)), equal_to_plain_spec=(vks == ks)))
+				return
+		sh.count('kmerspec_spelling_variants')
 	if stats:
 		f, r, d, o = occ_stats(k, prefix, seqs)
 		if f: sh.count('cases_with_forward_occurrence')
